@@ -166,6 +166,35 @@ def run(rep, tier="quick", replay=None, evidence_dir=None):
                     nm = callee_names(t["func"])
                     if nm and nm[0] in ("std::cmp::PartialEq::eq", "std::cmp::PartialEq::ne") and any(body.op_str(a) is not None for a in t["args"]):
                         bad.append([body.op_str(a) for a in t["args"] if body.op_str(a) is not None][0])
+        # ... and the loop walks the attribute map itself, not a filtered view of it
+        DROPPING = ("Filter", "FilterMap", "Skip", "SkipWhile", "Take", "TakeWhile", "StepBy", "Flatten", "FlatMap")
+        for kind, k, v, bi in entries(body, set(range(body.n))):
+            if kind != "entry" or k is not None:
+                continue
+            lp = shape.loop_of(body, bi)
+            if lp is None:
+                continue
+            for x in sorted(lp[1]):
+                t = body.blocks[x]["term"]
+                if t["t"] == "call" and callee_names(t["func"])[0] == "std::iter::Iterator::next":
+                    ity = str((t["func"].get("ga") or [""])[0])
+                    import re as _re
+                    words = set(_re.findall(r"[A-Za-z_]+", ity))
+                    if words & set(DROPPING):
+                        bad.append("<iterator %s>" % ity[:60])
+                    elif "impl" in words or "dyn" in words:
+                        # an opaque iterator from a local helper: the helper must not drop entries either
+                        helper_bad = None
+                        for hb, ht in body.calls():
+                            for n_ in callee_names(ht["func"]):
+                                h = prog.bodies.get(n_)
+                                if h is not None and h.crate == "apache_avro" and ("impl" in h.ret or "dyn" in h.ret) and "Iterator" in h.ret:
+                                    for hh in prog.with_closures(h):
+                                        for _, t2 in hh.calls():
+                                            if callee_names(t2["func"])[0].split("::")[-1] in ("filter", "filter_map", "skip", "skip_while", "take", "take_while", "step_by", "flatten", "flat_map"):
+                                                helper_bad = h.path
+                        if helper_bad:
+                            bad.append("<filtered by %s>" % helper_bad)
         rep.ob("C10.R1", "%s writes every custom attribute (no key is filtered out by name)" % what, n_attr >= 1 and not bad,
                "attribute loop skips keys %s: a custom attribute with that name is lost on a JSON round trip (and from file headers)" % sorted(set(bad)) if bad else "no attribute loop found", body.loc())
     # ---------------- R2 logical types
